@@ -2,6 +2,7 @@ import AcraModel.Envelope.Detector
 import AcraModel.Envelope.ContainerLemmas
 import AcraModel.Envelope.BlockLemmas
 import AcraModel.Envelope.ProtectLemmas
+import AcraModel.Envelope.ScanLemmas
 /-!
 # C01 — protect-then-reveal returns the original bytes for the owning client
 
@@ -242,5 +243,142 @@ theorem reveal_protect_block_commit (c : CryptoOps) (hs : SealLaws c) (hcm : Sea
   unfold reveal
   rw [this]
   exact c01_decryptKind_block c kvR e m _ hx0 hR hd
+
+/-! ## the transparent column processor (`EnvelopeDetector.OnColumn`)
+
+`headStep cbs rest` (in `Envelope/ScanLemmas.lean`) is the decision one loop iteration takes on
+`rest = inBuffer[inIndex:]`: `skip` (copy one byte), `replace p n` (emit `p`, advance `n`), `fatal`,
+`panic`. `procAt cbs rest p n` is the condition under which it replaces: `rest` starts with `%%%`,
+`ExtractSerializedContainer` succeeds with `0 < n ≤ |rest|`, and the callbacks replace the container
+by `p`. -/
+
+/-- Embedded envelope, general form. If no position inside `pre` is processed (each one is skipped:
+not replaced, not fatal, no panic) and the loop processes `C` at the head of `C ++ suf` to `m`,
+consuming exactly `C.length` bytes, then scanning `pre ++ C ++ suf` gives `pre ++ m` followed by the
+result of scanning `suf` (fatal/panic of that rest propagate); the "envelope seen" flag is set. No
+byte of `pre` is lost or changed. -/
+theorem scan_embedded (cbs : List Callback) (pre C suf m : Bytes)
+    (hpre : ∀ i, i < pre.length → ∃ hit, headStep cbs ((pre ++ C ++ suf).drop i) = .skip hit)
+    (hC : C ≠ []) (hproc : procAt cbs (C ++ suf) m C.length) :
+    scan cbs (pre ++ C ++ suf) = (scan cbs suf).prepend (pre ++ m) true :=
+  c01_scan_embedded cbs pre C suf m hpre hC (c01_headStep_of_procAt hproc)
+
+/-- The same through `OnColumn` itself (which only adds the "shorter than a container / no callbacks"
+shortcut). -/
+theorem onColumn_embedded (cbs : List Callback) (pre C suf m : Bytes) (hcbs : cbs ≠ [])
+    (hlen : containerMin ≤ (pre ++ C ++ suf).length)
+    (hpre : ∀ i, i < pre.length → ∃ hit, headStep cbs ((pre ++ C ++ suf).drop i) = .skip hit)
+    (hC : C ≠ []) (hproc : procAt cbs (C ++ suf) m C.length) :
+    onColumn cbs (pre ++ C ++ suf) = (scan cbs suf).prepend (pre ++ m) true := by
+  rw [c01_onColumn_scan cbs _ hcbs hlen]
+  exact scan_embedded cbs pre C suf m hpre hC hproc
+
+/-- Plain data: if no position of the buffer is processed (every one is skipped), the column value is
+returned byte for byte. -/
+theorem scan_plain (cbs : List Callback) (buf : Bytes)
+    (h : ∀ i, i < buf.length → ∃ hit, headStep cbs (buf.drop i) = .skip hit) :
+    ∃ hit, scan cbs buf = .ok buf hit ∧ onColumn cbs buf = .ok buf (hit && decide (containerMin ≤ buf.length) && !cbs.isEmpty) := by
+  obtain ⟨hit, hs⟩ := c01_scan_plain cbs buf h
+  refine ⟨hit, hs, ?_⟩
+  unfold onColumn
+  by_cases hc : buf.length < containerMin ∨ cbs.isEmpty = true
+  · rw [if_pos hc]
+    rcases hc with hc | hc
+    · have : decide (containerMin ≤ buf.length) = false := by simp; omega
+      simp [this]
+    · simp [hc]
+  · rw [if_neg hc, hs]
+    have h1 : decide (containerMin ≤ buf.length) = true := by simp; omega
+    have h2 : cbs.isEmpty = false := by simpa using fun h => hc (Or.inr h)
+    simp [h1, h2]
+
+/-- Positions that do not start with a `%` byte are never processed – the concrete, checkable form
+of the hypothesis of `scan_embedded` / `scan_plain` for ordinary text around an envelope. -/
+theorem skip_of_no_tag_byte (cbs : List Callback) (pre rest : Bytes) (h : ∀ x ∈ pre, x ≠ 37) :
+    ∀ i, i < pre.length → ∃ hit, headStep cbs ((pre ++ rest).drop i) = .skip hit :=
+  c01_skip_of_no_tag_byte cbs pre rest h
+
+/-- The decrypt callback inside a column value. Let `e` be an envelope of kind `k` that the registry
+handler opens to `m` with the reader's keys `kv`, serialized as container `p = serBytes e k.id`. The
+callback list is `front ++ decryptCallback c kv :: rest` where the callbacks in `front` leave this
+container alone (`OldContainerDetectorWrapper` puts such a callback first). The callback receives the
+WHOLE rest of the buffer `p ++ suf`, but `deserialize` takes exactly the declared length, so it opens
+`e`; `OnColumn` then consumes exactly `p`. `m ≠ p ++ suf` is needed because the callback reports
+"unchanged" when its output equals its input (it follows from `SealLen c`: `p` is longer than `m`). -/
+theorem onColumn_reveal_embedded (c : CryptoOps) (kv : KeyView) (k : Kind) (e pre suf m : Bytes)
+    (front rest : List Callback)
+    (he : e ≠ []) (hlen : e.length + 12 < 2^63) (hmatch : matchKind k e = true)
+    (hdec : decryptKind c kv k e = .ok m) (hne : m ≠ serBytes e k.id ++ suf)
+    (hfront : ∀ cb ∈ front, cb (serBytes e k.id ++ suf) = .same ∨ cb (serBytes e k.id ++ suf) = .decErr)
+    (hpre : ∀ i, i < pre.length → ∃ hit,
+      headStep (front ++ decryptCallback c kv :: rest) ((pre ++ serBytes e k.id ++ suf).drop i) = .skip hit) :
+    process c kv (serBytes e k.id ++ suf) = .ok m ∧
+    onColumn (front ++ decryptCallback c kv :: rest) (pre ++ serBytes e k.id ++ suf) =
+      (scan (front ++ decryptCallback c kv :: rest) suf).prepend (pre ++ m) true := by
+  have hproc : process c kv (serBytes e k.id ++ suf) = .ok m := by
+    rw [c01_process_ser c kv k e suf he (by omega) hmatch, hdec]
+  refine ⟨hproc, ?_⟩
+  have hrun := c01_runCallbacks_front front rest hfront hproc hne
+  have hp := c01_procAt_ser _ k e suf m he hlen hrun
+  refine onColumn_embedded _ pre (serBytes e k.id) suf m (by simp) ?_ hpre ?_ hp
+  · rw [List.length_append, List.length_append, c01_serBytes_length]
+    show 12 ≤ _
+    omega
+  · intro h
+    have := congrArg List.length h
+    rw [c01_serBytes_length] at this
+    simp at this
+
+/-- Protect, store inside other bytes, read back through the transparent column processor (AcraBlock
+kind). `p` is what `protect` produced for `m` under the writer's key view; the column value is
+`bpre ++ p ++ suf`; the reader's key list contains the writer's key (hypotheses of
+`reveal_protect_block`). If no position inside `bpre` is processed, `OnColumn` returns `bpre ++ m`
+followed by the result of scanning `suf`. With `front = [fun _ => .same]` this is the callback list
+`OldContainerDetectorWrapper.OnColumn` runs. -/
+theorem onColumn_protect_embedded_block (c : CryptoOps) (hs : SealLaws c) (kvW kvR : KeyView)
+    (key m rnd p bpre suf : Bytes) (kpre kpost : List Bytes) (front rest : List Callback)
+    (hkid : (keyId c key []).length = 2)
+    (hW : kvW.sym = some key) (hR : kvR.syms = some (kpre ++ key :: kpost))
+    (hkpre : ∀ k' ∈ kpre, ∀ encKey, c.enc key [] (rnd.take 32) ((rnd.drop 44).take 12) = some encKey →
+      keyId c k' [] = keyId c key [] → c.dec k' [] encKey = none)
+    (hEncKey : ∀ encKey, c.enc key [] (rnd.take 32) ((rnd.drop 44).take 12) = some encKey → encKey.length < 65536)
+    (hplen : p.length < 2^63)
+    (hnm : matchKind .block m = false) (hnr : registryMatch m = false)
+    (hp : protect c kvW .block m rnd = .ok p)
+    (hne : m ≠ p ++ suf)
+    (hfront : ∀ cb ∈ front, cb (p ++ suf) = .same ∨ cb (p ++ suf) = .decErr)
+    (hskip : ∀ i, i < bpre.length → ∃ hit,
+      headStep (front ++ decryptCallback c kvR :: rest) ((bpre ++ p ++ suf).drop i) = .skip hit) :
+    onColumn (front ++ decryptCallback c kvR :: rest) (bpre ++ p ++ suf) =
+      (scan (front ++ decryptCallback c kvR :: rest) suf).prepend (bpre ++ m) true := by
+  obtain ⟨e, rfl, he, hlen, hmatch, hdec⟩ := c01_protect_block_facts c hs kvW kvR key m rnd p kpre kpost hkid hW hR
+    (fun k' hk' encKey h2 hid => Or.inl (hkpre k' hk' encKey h2 hid)) hEncKey hplen hnm hnr hp
+  exact (onColumn_reveal_embedded c kvR .block e bpre suf m front rest he hlen hmatch hdec hne hfront hskip).2
+
+/-- End to end for ordinary text around the value: if the bytes before and after the protected
+value contain no `%` (so nothing there can look like a container), `OnColumn` with the decrypt
+callback returns exactly `before ++ m ++ after`. -/
+theorem onColumn_protect_block_in_text (c : CryptoOps) (hs : SealLaws c) (kvW kvR : KeyView)
+    (key m rnd p bpre suf : Bytes) (kpre kpost : List Bytes)
+    (hkid : (keyId c key []).length = 2)
+    (hW : kvW.sym = some key) (hR : kvR.syms = some (kpre ++ key :: kpost))
+    (hkpre : ∀ k' ∈ kpre, ∀ encKey, c.enc key [] (rnd.take 32) ((rnd.drop 44).take 12) = some encKey →
+      keyId c k' [] = keyId c key [] → c.dec k' [] encKey = none)
+    (hEncKey : ∀ encKey, c.enc key [] (rnd.take 32) ((rnd.drop 44).take 12) = some encKey → encKey.length < 65536)
+    (hplen : p.length < 2^63)
+    (hnm : matchKind .block m = false) (hnr : registryMatch m = false)
+    (hp : protect c kvW .block m rnd = .ok p)
+    (hne : m ≠ p ++ suf)
+    (hbpre : ∀ x ∈ bpre, x ≠ 37) (hsuf : ∀ x ∈ suf, x ≠ 37) :
+    onColumn [decryptCallback c kvR] (bpre ++ p ++ suf) = .ok (bpre ++ m ++ suf) true := by
+  have h := onColumn_protect_embedded_block c hs kvW kvR key m rnd p bpre suf kpre kpost [] [] hkid hW hR hkpre
+    hEncKey hplen hnm hnr hp hne (by simp)
+    (by rw [List.append_assoc]; exact c01_skip_of_no_tag_byte _ bpre (p ++ suf) hbpre)
+  rw [List.nil_append] at h
+  have hs' := c01_skip_of_no_tag_byte [decryptCallback c kvR] suf [] hsuf
+  simp only [List.append_nil] at hs'
+  obtain ⟨hit, hsc⟩ := c01_scan_plain _ suf hs'
+  rw [h, hsc]
+  simp [ScanOut.prepend]
 
 end AcraModel.Props.C01
